@@ -33,12 +33,13 @@ theorem kernel_threshold_hare (m : Nat) (N : Rat) :
 
 /-- the source's transfer value is the factor the model's fractional transfer applies
 (`applyTransfer`, `.fractional`: `b.2 * ((t - q) / t)`) -/
-theorem kernel_transfer_value (t : Rat) (q : Int) : Generated.transferValue t q = (t - q) / t := by
+theorem kernel_transfer_value (t : Rat) (q : Int) (ht : t ≠ 0) : Generated.transferValue t q = (t - q) / t := by
   unfold Generated.transferValue
   first
     | rfl
     | ring
     | (field_simp)
+    | (field_simp; ring)
 
 /-- the model's fractional transfer really uses that factor -/
 theorem kernel_transfer_value_used (cfg : STVCfg) (hop : List Cand) (q : Int) (sample : List (List Cand × Nat))
@@ -46,7 +47,7 @@ theorem kernel_transfer_value_used (cfg : STVCfg) (hop : List Cand) (q : Int) (s
     applyTransfer cfg hop q sample bs w =
       .ok (bs.map (fun b => if topOf hop b.1 = some w then (b.1, b.2 * Generated.transferValue (tally bs hop w) q) else b)) := by
   unfold applyTransfer
-  simp only [hf, ht, if_false, kernel_transfer_value]
+  simp only [hf, ht, if_false, kernel_transfer_value _ _ ht]
 
 /-- the source's branch threshold of BoostedRandomDictator is the probability the model's law uses -/
 theorem kernel_boosted_branch (n : Nat) : Generated.boostedBranch n = 1 / ((n : Rat) - 1) := by
@@ -54,6 +55,7 @@ theorem kernel_boosted_branch (n : Nat) : Generated.boostedBranch n = 1 / ((n : 
   first
     | rfl
     | ring
+    | (simp; ring)
 
 /-! ### MCMC acceptance probabilities (C16) -/
 
